@@ -155,6 +155,8 @@ class Heap:
         self.info = {}          # term id -> (epoch, offset or None)
         self.base = self.alloc  # alloc term at the start of the current epoch
         self.used = 0
+        self.alloc0 = self.alloc
+        self.ev_alloc = {}      # key -> alloc term at the time the component was last modified
 
     def copy(self):
         h = Heap.__new__(Heap)
@@ -162,6 +164,8 @@ class Heap:
         h.tag = self.tag
         h.alloc = self.alloc
         h.epoch, h.info, h.base, h.used = self.epoch, dict(self.info), self.base, self.used
+        h.alloc0, h.ev_alloc = self.alloc0, dict(self.ev_alloc)
+        h.base_alloc = dict(getattr(self, 'base_alloc', {}))
         return h
 
     # allocation bookkeeping ----------------------------------------
@@ -224,8 +228,16 @@ class Heap:
             t = z3.Store(t, r, v)
         return t
 
+    def bound(self, key):
+        """every reference stored in component `key` is below this allocation mark (the component has not
+        been modified since, and no reference is ever stored before it is allocated)"""
+        return self.ev_alloc.get(key, self.alloc0)
+
     def set(self, key, term):
         self.m[key] = [term, []]
+        self.ev_alloc[key] = self.alloc
+        self.base_alloc = dict(getattr(self, 'base_alloc', {}))
+        self.base_alloc[key] = self.alloc
 
     def rd(self, key, ref):
         base, log = self._entry(key)
@@ -249,6 +261,7 @@ class Heap:
             log[-1] = (ref, val)
         else:
             log.append((ref, val))
+        self.ev_alloc[key] = self.alloc
 
 
 class State:
